@@ -45,7 +45,7 @@ var fullStackReal = []string{
 var props = []*prop{
 	{
 		ID: "C01", Binary: "simgen", NeedsGen: true, Quick: 3000, Thorough: 80000, RunWall: 180 * time.Second,
-		Variants: []variant{{Scenario: "c01", Weight: 2}, {Scenario: "c01f", Weight: 1}},
+		Variants: []variant{{Scenario: "c01", Weight: 4}, {Scenario: "c01f", Weight: 2}, {Scenario: "c01", Params: map[string]string{"stalls": "off", "shortto": "on"}, Weight: 1}},
 		Real:     append([]string{"tars2go built from the working tree; proxy, dispatcher and struct codecs it generates from /verif/idl/VerifAll.tars (real, atomic to the scheduler)", "tars filters (legacy, pre/post, middleware), tars.Protocol.Invoke, current (real)"}, fullStackReal...),
 		Stub:     append([]string{netStub + " (fault-free: fragmentation and delay only)", "servant implementation -> recording implementation driven by a per-call plan"}, commonStub...),
 		Rule:     "one case = one simulated run: 1-8 callers x 1-6 calls sharing one generated proxy against a real server (pool 0/2/5) hosting the generated dispatcher; every call draws a method (void, scalars, string, byte vector, nested vectors, maps, struct with every member kind, enum, fixed array; two-way and one-way), boundary-dense argument/return/out values (min/max, NaN payloads, signed zero, empty and nil containers, strings and byte vectors across the 255/256, 4096 and 65536 boundaries), context/status maps (absent, empty, populated), and a servant outcome (values, response context/status, *tars.Error or plain error); client and server filter families (none, legacy single, pre+post, middleware chain) drawn independently, in half of the middleware runs one more client middleware is registered after a drawn number of calls; every third run instead drives, through reflection, one module of a seeded family of IDL programs (8 per build, 24 in the thorough tier; VERIF_SEED selects the family: random structs with required/optional/defaulted members of scalar, string, vector, map, struct and enum types at sparse tags, interfaces with 2-5 methods, in/out parameters, void and typed returns) generated, compiled and linked at check time; distinct = distinct (event-log hash, switch trace hash); non-trivial = at least one preemption",
